@@ -11,6 +11,7 @@ use std::cell::RefCell;
 use std::collections::BTreeMap;
 use std::io::Write;
 
+#[cfg(feature = "forms")]
 pub mod forms;
 pub mod probe;
 pub mod track;
